@@ -584,6 +584,10 @@ func (c *decoratorController) syncParentObject(parent *unstructured.Unstructured
 	if err != nil {
 		return err
 	}
+	if syncResult == nil {
+		// No hook is enabled for this object (e.g. only a finalize hook is defined).
+		return nil
+	}
 	desiredChildren := commonv2.MakeUniformObjectMap(parent, syncResult.Attachments)
 
 	// Enqueue a delayed resync, if requested.
